@@ -210,4 +210,84 @@ Section MetaResume.
         * destruct (c_keep c); reflexivity.
       + destruct (I2 eq_refl) as (A & B & C). subst. cbn [app]. repeat split; auto.
   Qed.
+
+  (* ---- no hill is ever pending when the state is written: without grids (writing projects nothing), or when
+     every deposition step is a projection step (gridsUpdateFrequency divides newHillFrequency: the default) ---- *)
+  Definition meta_ok2 (c : cfg) : Prop :=
+    meta_ok c /\ (c_use_grids c = true -> 0 < c_gfreq c /\ (c_gfreq c | c_freq c)).
+  Definition meta_inv2 (c : cfg) (s : state) : Prop :=
+    meta_inv c s /\ (c_use_grids c = true -> st_new s = []).
+
+  Lemma project_new c s : st_new (project O c s) = [].
+  Proof. reflexivity. Qed.
+
+  Lemma inv2_step c s it rel x : meta_ok2 c -> meta_inv2 c s -> meta_inv2 c (step_state O c s (mkIn it rel false x)).
+  Proof.
+    intros [Hc Hd] [Hi Hn]. split; [apply inv_step; auto|]. intros Hg. specialize (Hn Hg). destruct (Hd Hg) as [Hpos Hdiv].
+    unfold step_state. prj. rewrite (ugp_id c s x Hc), Hg. unfold update_grid_data. prj.
+    destruct (it mod c_gfreq c =? 0) eqn:Em; [apply project_new|].
+    unfold update_bias, deposit_now. prj.
+    destruct (it mod c_freq c =? 0) eqn:Ef; cbn [andb]; [|exact Hn].
+    destruct (0 <? c_freq c) eqn:Ep; rewrite ?andb_false_r; [|exact Hn].
+    exfalso. apply Z.eqb_eq in Ef. apply Z.ltb_lt in Ep. apply Z.eqb_neq in Em. apply Em.
+    apply Z.mod_divide; [lia|]. apply Z.divide_trans with (c_freq c); auto. apply Z.mod_divide; [lia | exact Ef].
+  Qed.
+
+  Lemma eqv_trans c s1 s2 s3 : meta_eqv c s1 s2 -> meta_eqv c s2 s3 -> meta_eqv c s1 s3.
+  Proof.
+    intros (A1 & A2 & A3 & A4 & A5 & A6 & A7) (B1 & B2 & B3 & B4 & B5 & B6 & B7). unfold meta_eqv.
+    repeat split; try congruence; intros;
+      try (rewrite A5 by auto; apply B5; auto); try (rewrite A6; apply B6); try (rewrite A7; apply B7).
+  Qed.
+
+  (* writing the state of an object without pending hills changes nothing observable *)
+  Lemma save_neutral c s : meta_inv2 c s -> meta_eqv c s (save_state O c s).
+  Proof.
+    intros [(I1 & I2 & I3) Hn]. unfold save_state. destruct (c_use_grids c) eqn:Hg.
+    - specialize (Hn eq_refl). destruct (I3 eq_refl) as (J1 & J2 & J3).
+      destruct s as [old new offo offn e g geom]. prj. subst new. cbn [filter] in J1. subst offn.
+      unfold project, meta_eqv. prj. rewrite !app_nil_r. repeat split; auto.
+      + (* without keepHills the list of binned hills is not compared *)
+        intros H. rewrite Hg in H. destruct (c_keep c) eqn:Hk; [reflexivity | cbn in H; discriminate H].
+      + intros ix. cbn [hills_energy fold_left]. rewrite Rops_add0. reflexivity.
+      + intros ix k. cbn [hills_force fold_left sc]. cbn [nsub n0 Rops]. lra.
+    - unfold meta_eqv. repeat split; auto.
+  Qed.
+
+  Theorem meta_resumable_full :
+    resumable (meta_machine O) meta_ok2 meta_inv2 meta_eqv eq eq meta_saved_eq.
+  Proof.
+    pose proof meta_resumable as HR.
+    constructor; cbn [m_init m_step m_save m_after_save m_load meta_machine].
+    - intros c [Hc _]. split; [apply inv_init | reflexivity].
+    - intros c s it rel x Hc Hi _. unfold step. cbn [fst]. apply inv2_step; auto.
+    - intros c s it rel x Hc Hi Hr. cbn zeta.
+      destruct (r_reexec HR c s it rel x (proj1 Hc) (proj1 Hi) Hr) as [He _]. cbn zeta in He.
+      cbn [m_step m_save m_after_save m_load meta_machine] in He.
+      split; [exact He|].
+      pose proof (inv2_step c s it rel x Hc Hi) as Hi1.
+      pose proof (save_neutral c _ Hi1) as Hn.
+      pose proof (eqv_trans c _ _ _ Hn He) as Ht. unfold step in *. cbn [fst snd] in *. cbn [i_x].
+      rewrite (energy_congr c _ _ x Ht), (forces_congr c _ _ x Ht). reflexivity.
+    - intros c s s' it rel rel' x Hc He Hr Hr'. exact (r_congr HR c s s' it rel rel' x (proj1 Hc) He Hr Hr').
+    - intros c s s' Hc He. exact (rs_save HR c s s' (proj1 Hc) He).
+    - intros c s Hc Hi. exact (rs_save_load HR c s (proj1 Hc) (proj1 Hi)).
+  Qed.
+
+  Lemma saved_eq_trans (a b c : meta_saved (T:=T)) : meta_saved_eq a b -> meta_saved_eq b c -> meta_saved_eq a c.
+  Proof.
+    intros (A1 & A2 & A3 & A4) (B1 & B2 & B3 & B4). unfold meta_saved_eq.
+    repeat split; try congruence; intros; try (rewrite A1; apply B1); try (rewrite A2; apply B2).
+  Qed.
+
+  Theorem meta_resumes_uninterrupted :
+    resumes_like_uninterrupted (meta_machine O) meta_ok2 eq eq meta_saved_eq.
+  Proof.
+    intros c Hc it0 h1 i h2.
+    apply (resume_vs_uninterrupted_neutral (meta_machine O) meta_ok2 meta_inv2 meta_eqv eq eq meta_saved_eq meta_resumable_full).
+    - intros c0 s _ Hi. apply save_neutral; auto.
+    - intros a b d -> ->. reflexivity.
+    - apply saved_eq_trans.
+    - exact Hc.
+  Qed.
 End MetaResume.
